@@ -12,7 +12,7 @@ configure run produced: every feature on, syslog output off) with two seams:
 Nothing is cached between runs: every check rebuilds from the tree (1-2 s on 16 cores).
 """
 import os, re, shlex, glob, shutil, subprocess, sys
-from .common import VERIF, REPO, BUILD, NCPU, sh, pmap
+from .common import VERIF, REPO, BUILD, AUX, NCPU, sh, pmap
 
 COMMON_WARN = ['-Wall', '-Wextra', '-Wno-unused-parameter', '-std=c99', '-Wpedantic',
                '-fvisibility=hidden']
@@ -100,7 +100,7 @@ def build_variant(name, ts=True, san='asan', sched=False, pic=False, entry=('exe
                   repo=None, extra_cflags=(), force=True):
     """Compile the library sources into BUILD/<name>/obj/*.o; returns dict(dir, objs, cc, cflags, ldflags)."""
     repo = repo or REPO
-    d = os.path.join(BUILD, name)
+    d = os.path.join(BUILD, '%s-%d' % (name, os.getpid()))      # per-process: the same check may run twice at the same time
     if force:
         shutil.rmtree(d, ignore_errors=True)
     od = os.path.join(d, 'obj')
@@ -158,7 +158,7 @@ def link_harness(v, out, sources, extra_objs=(), extra_cflags=(), extra_ld=(), s
 
 def build_shared(name, sources, cc=('gcc',), cflags=()):
     """Small helper .so (recorder etc.) built without sanitizers."""
-    d = os.path.join(BUILD, 'aux')
+    d = AUX
     os.makedirs(d, exist_ok=True)
     out = os.path.join(d, name)
     r = sh(list(cc) + ['-O1', '-g', '-fPIC', '-shared', '-D_GNU_SOURCE', '-I' + os.path.join(VERIF, 'native')] +
@@ -171,7 +171,7 @@ def build_shared(name, sources, cc=('gcc',), cflags=()):
 def build_cli(name='cli', san='plain', repo=None):
     """snoopyctl from the tree: src/cli/*.c + util objects."""
     repo = repo or REPO
-    d = os.path.join(BUILD, name)
+    d = os.path.join(BUILD, '%s-%d' % (name, os.getpid()))
     shutil.rmtree(d, ignore_errors=True)
     od = os.path.join(d, 'obj')
     os.makedirs(od, exist_ok=True)
